@@ -156,6 +156,8 @@ def op_table():
     add("read layers", lambda d: d["layers"])
     add("read metadata", lambda d: d["metadata"])
     add('metadata[k2]="v2"', lambda d: d["metadata"].__setitem__("k2", "v2"))
+    add('metadata[__note__]="hidden"', lambda d: d["metadata"].__setitem__("__note__", "hidden"))
+    add("update metadata with __delete__ False", lambda d: mappyfile.update(d, {"metadata": {"__delete__": False, "k3": "v3"}}))
     add('config[MS_ERRORFILE]="stderr"', lambda d: d["config"].__setitem__("MS_ERRORFILE", "stderr"))
     add('legend[status]="ON"', lambda d: d["legend"].__setitem__("status", "ON"))
     add("append layer", lambda d: d["layers"].append(_snip("LAYER NAME 'n' TYPE LINE END")))
@@ -173,7 +175,7 @@ def op_table():
     return ops
 
 
-N_OPS_SHARD = 34   # one unit per (initial dict, first op)
+N_OPS_SHARD = 36   # one unit per (initial dict, first op)
 
 
 def applicable(initial_type, name):
